@@ -34,6 +34,76 @@ CODES = {
 }
 
 
+BATCH_BYTES = 4_000_000   # text of case terms per Coq round (16 shards): bounds time and memory of every coqc process
+
+
+def full_term(c):
+    """The self-contained Coq term of one run of one store."""
+    if c.get("full_term"):
+        return c["full_term"]
+    return "(%s [%s])" % (c["_head"], c["coq"])
+
+
+def evaluate(ctx, good):
+    """Evaluate check_case on every observed run. The runs of one store (one for an ordinary store, one per crash
+    point for the family 'crash during the close') share the store term. Rounds of bounded size; the cases of a
+    shard that produced no report are evaluated again, in small rounds, before they count as failed.
+    -> (result per case: [code, plan index, monitor] | None, shard infos)"""
+    groups, order = {}, []
+    for c in good:
+        if not c.get("full_term"):
+            c["_head"] = c["dist"].pop("case_head")      # kept out of evidence and replays' dist
+        key = ("full", id(c)) if c.get("full_term") else (c["dist"].get("group"), c["_head"])
+        if key not in groups:
+            groups[key] = []
+            order.append(key)
+        groups[key].append(c)
+    items = []
+    for key in order:
+        ms = groups[key]
+        term = ms[0]["full_term"] if key[0] == "full" else "(%s [%s])" % (key[1], "; ".join(m["coq"] for m in ms))
+        items.append((term, ms))
+    result = {}
+    infos = []
+    rounds = [0]
+
+    def one_pass(todo, budget, shards, timeout):
+        batches, cur, sz = [], [], 0
+        for it in todo:
+            if cur and sz + len(it[0]) > budget:
+                batches.append(cur)
+                cur, sz = [], 0
+            cur.append(it)
+            sz += len(it[0])
+        if cur:
+            batches.append(cur)
+        failed = []
+        for part in batches:
+            work = os.path.join(ctx.work, "coq_%d" % rounds[0])
+            res, inf = fw.eval_cases(work, "select", HEADER, "case", "check_case", "case_ok", [t for t, _ in part],
+                                     shards=shards, timeout=timeout)
+            for x in inf:
+                x["shard"] = x["shard"] + 100 * rounds[0]
+                x["bytes"] = sum(len(t) for t, _ in part)
+            infos.extend(inf)
+            rounds[0] += 1
+            for (t, ms), r in zip(part, res):
+                if r is None or len(r) != 3 * len(ms):
+                    failed.append((t, ms))
+                    continue
+                for k, m in enumerate(ms):
+                    result[id(m)] = r[3 * k:3 * k + 3]
+            if not os.environ.get("VERIF_KEEP"):
+                import shutil
+                shutil.rmtree(work, ignore_errors=True)
+        return failed
+    failed = one_pass(items, BATCH_BYTES, fw.NCPU, 600)
+    retried = len(failed)
+    if failed:
+        failed = one_pass(failed, BATCH_BYTES // 4, max(2, fw.NCPU // 2), 900)
+    return [result.get(id(c)) for c in good], infos, retried, len(failed)
+
+
 def run(ctx):
     ctx.static_and_proofs("select")
     n = 180 if ctx.tier == "quick" else 2400
@@ -44,7 +114,7 @@ def run(ctx):
         rp = json.load(open(ctx.replay))
         if rp.get("case_coq", "").startswith("(Build_case") and rp["case_coq"].count("(") == rp["case_coq"].count(")"):
             # the recorded observation is re-evaluated as well (timing makes a fresh run differ)
-            recorded = dict(id=str(rp.get("case")) + "-recorded", kind="store", coq=rp["case_coq"], nontrivial=True, hash="recorded",
+            recorded = dict(id=str(rp.get("case")) + "-recorded", kind="store", coq=rp["case_coq"], full_term=rp["case_coq"], nontrivial=True, hash="recorded",
                             dist=rp.get("dist") or {"plans": 0, "recovery": True, "max_age": "?", "file_backed": False, "new_ms": 0},
                             input=rp.get("input") or {}, observed=rp.get("store") or [])
         only = rp.get("input", {}).get("index")
@@ -59,10 +129,14 @@ def run(ctx):
         cases = [recorded] + cases
     good = [c for c in cases if c.get("coq")]
     lost = [c for c in cases if not c.get("coq")]
-    terms = [c["coq"] for c in good]
-    results, infos = fw.eval_cases(ctx.work, "select", HEADER, "case", "check_case", "case_ok", terms)
+    results, infos, retried, unevaluated = evaluate(ctx, good)
+    # a shard whose corr_ok failed is an obligation not discharged unless every case of it was evaluated (then the
+    # failing cases are reported one by one below); a shard that died and whose cases passed on re-evaluation is not
     for info in infos:
-        ctx.oblige("corr_ok shard %d (%d stores): forallb case_ok cases = true" % (info["shard"], info["n"]), info["rc"] == 0)
+        ctx.oblige("corr_ok round %d shard %d (%d stores): forallb case_ok cases = true" % (info["shard"] // 100, info["shard"] % 100, info["n"]),
+                   info["rc"] == 0 or info["report"] is None)
+    ctx.oblige("every observed run was evaluated by the model (%d store terms re-evaluated after their shard died, %d still without a result)"
+               % (retried, unevaluated), unevaluated == 0)
 
     bad, inconclusive = [], []
     code_of = {}
@@ -143,7 +217,7 @@ def run(ctx):
             ctx.violation(dict(
                 kind="recovery-selection-differs" if not monfalse else "property-violated", failure_class=k,
                 why=why, monitor_false=monfalse, case=c["id"], input=c["input"], dist=c["dist"], offending_plan=plan_obs,
-                store=c.get("observed") or [], failing_cases=len(xs), failing_cases_all_classes=len(bad), case_coq=c["coq"],
+                store=c.get("observed") or [], failing_cases=len(xs), failing_cases_all_classes=len(bad), case_coq=full_term(c),
                 broken=None if monfalse else "corr_ok (SelectCheck.case_ok): the implementation's recovery left a store the model does not predict",
                 replay_cmd="VERIF_SEED=%s ./check C11 --tier %s   (store index %s; or ./check C11 --replay <this file>)"
                            % (ctx.seed, ctx.tier, c["input"].get("index"))),
